@@ -7,9 +7,11 @@ import (
 	"io"
 	"os"
 	"path/filepath"
+	"sort"
 	"strings"
 	"sync"
 	"testing"
+	"time"
 
 	"github.com/sanonone/kektordb/internal/zzverif/vexec"
 	"github.com/sanonone/kektordb/internal/zzverif/vkit"
@@ -141,6 +143,47 @@ func c02Evaluate(ctx *vkit.Ctx, cs *vkit.Case, dir, what string, cands []*vexec.
 		cs.Attach("diff", d)
 		cs.Fail("%s: writes after recovery did not survive a restart unchanged: %s", what, d[0])
 	}
+	// the recovered directory must also carry deletions and a compaction: delete one key and
+	// one vector, compact, restart (leftovers of the interrupted operation - temporary files,
+	// markers - must not resurface in the new log)
+	if ks := e.DB.GetKVStore().Keys(); len(ks) > 0 {
+		sort.Strings(ks)
+		if err := e.KVDelete(ks[0]); err != nil {
+			cs.Fail("%s: KVDelete after recovery failed: %v", what, err)
+		}
+	}
+	for _, name := range e.ListIndexes() {
+		if ids, _, _ := e.VGetIDsByCursor(name, 0, 1); len(ids) > 0 {
+			done := verifhook.Hits()["cascade.done"]
+			if err := e.VDelete(name, ids[0]); err != nil {
+				cs.Fail("%s: VDelete after recovery failed: %v", what, err)
+			}
+			// every acknowledged VDelete runs one cascade; wait for it (bounded, no verdict
+			// depends on the wait) and keep the live executor's accounting straight
+			for i := 0; i < 20000 && verifhook.Hits()["cascade.done"] == done; i++ {
+				time.Sleep(100 * time.Microsecond)
+			}
+			if c02Live != nil {
+				c02Live.ForeignCascades(1)
+			}
+			break
+		}
+	}
+	if err := e.RewriteAOF(); err != nil {
+		cs.Fail("%s: RewriteAOF after recovery failed: %v", what, err)
+	}
+	obs5 := vexec.Observe(e, u)
+	e.Close()
+	e, err = engine.Open(vexec.Options(dir))
+	if err != nil {
+		closed = true
+		cs.Fail("%s: Open after post-recovery deletions + compaction failed: %v", what, err)
+	}
+	obs6 := vexec.Observe(e, u)
+	if d := vexec.Diff(obs5, obs6); len(d) > 0 {
+		cs.Attach("diff", d)
+		cs.Fail("%s: deletions + compaction after recovery did not survive a restart unchanged: %s", what, d[0])
+	}
 	e.Close()
 	closed = true
 	ctx.Count("fixed_points_checked", 1)
@@ -161,7 +204,9 @@ func TestVerifC02(t *testing.T) {
 			// new arena files and before the snapshot that records the new precision exists
 			defer verifhook.Reset()
 			x := vexec.NewExec(cs, cs.SubDir("data"))
+			c02Live = x
 			defer func() {
+				c02Live = nil
 				if x.E != nil {
 					x.E.Close()
 				}
@@ -200,7 +245,9 @@ func TestVerifC02(t *testing.T) {
 		ctx.Group("compress", ctx.N(32, 400), func(cs *vkit.Case) {
 			defer verifhook.Reset()
 			x := vexec.NewExec(cs, cs.SubDir("data"))
+			c02Live = x
 			defer func() {
+				c02Live = nil
 				if x.E != nil {
 					x.E.Close()
 				}
@@ -300,7 +347,9 @@ func TestVerifC02(t *testing.T) {
 		ctx.Group("crash", ctx.N(240, 4000), func(cs *vkit.Case) {
 			defer verifhook.Reset()
 			x := vexec.NewExec(cs, cs.SubDir("data"))
+			c02Live = x
 			defer func() {
+				c02Live = nil
 				if x.E != nil {
 					x.E.Close()
 				}
@@ -478,3 +527,6 @@ func TestVerifC02(t *testing.T) {
 }
 
 var _ = io.EOF
+
+// c02Live is the executor of the running case (cases of a shard run one after the other).
+var c02Live *vexec.Exec
